@@ -48,7 +48,16 @@ def run(ctx):
                         json.dump({"property": "C07", "engine": "daemonsim c07 + python exact oracle", "wire_and_result": line, "fields": "correction_bits delay_bits dispersion_bits phc_bound published_bound_nsec", "sig": sig, "detail": text}, f, indent=1)
                     viol.append({"sig": sig, "detail": text, "replay": rp})
     ctx.log("c07: %d reports published, %d judged by the exact oracle, %d with a negative offset" % (agg["evaluations"], judged, neg))
-    inconclusive = incon
+    # End to end for the "+PHC" term: the value must be the one the PHC error-bound file holds at
+    # that poll. The real poller loop reads a file that is rewritten during the history (world of C13).
+    from . import c01
+    wagg, wviol, wsamples, wincon = c01.run_world(ctx, "c13", 3000 if q else 60000)
+    phc_msgs = sum(v for k, v in wagg["outcomes_by_kind"].items() if k.startswith("ClockErrorBoundData"))
+    ctx.log("poller level: %d histories, %d measurement messages checked against the PHC file" % (wagg["evaluations"], phc_msgs))
+    for v in wviol:
+        if v["sig"] in ("phc-bound",):
+            viol.append({"sig": "phc-value-not-current", "detail": v["detail"], "replay": v.get("replay", "")})
+    inconclusive = incon or wincon
     if agg["shards_lost"]:
         inconclusive = "%d shards did not finish" % agg["shards_lost"]
     elif judged < agg["evaluations"] * 0.99 and not viol:
@@ -61,13 +70,15 @@ def run(ctx):
         "distinct_nontrivial": distinct,
         "rule": "each evaluation: wire bytes of a chrony Tracking reply with chosen 32-bit patterns in the offset / root delay / root dispersion fields -> chrony-candm's deserialiser -> Message -> the real process_messages/ShmUpdater on its own thread -> real ShmWriter -> record read from the sink (and the file); "
                 "patterns stratified over all 96 exponents of the meaningful range x edge/random coefficients x both offset signs, zeros, sub-ns values, sums within 1e-6 of a whole ns, realistic us..ms magnitudes, PHC bound in {0,1,12345,2^40}; "
-                "oracle: exact rational evaluation (Python fractions) of the README formula on the decoded wire values, b >= E(1-2^-50), b <= ceil(E)+1, b >= 0; distinct_nontrivial = distinct (wire patterns, phc, result) lines",
+                "poller level: histories of the real poller loop with a PHC error-bound file whose content changes, the PHC term of every measurement message must equal the file's value at that poll; oracle: exact rational evaluation (Python fractions) of the README formula on the decoded wire values, b >= E(1-2^-50), b <= ceil(E)+1, b >= 0; distinct_nontrivial = distinct (wire patterns, phc, result) lines",
         "samples": [{"correction_bits": int(line0[0]), "delay_bits": int(line0[1]), "dispersion_bits": int(line0[2]), "phc": int(line0[3]), "published_bound_nsec": int(line0[4]),
                      "decoded_offset_s": float(daemon.decode_float(int(line0[0])))}] if line0 else [],
         "generator_kinds": agg["kinds"],
         "negative_offsets": neg,
         "judged_by_exact_oracle": judged,
         "file_readbacks": agg["file_checks"],
+        "poller_level_histories": wagg["evaluations"],
+        "poller_level_measurement_messages": phc_msgs,
     }
     finish(ctx, coverage, viol, inconclusive, assumptions=["chrony float layout (7-bit exponent, 25-bit coefficient) transcribed from chrony's candm.h description into vlib/daemon.py", "meaningful range: |value| < 2^30 s"])
 
